@@ -140,12 +140,18 @@ def elem(tb: TermBuilder, p: Poly, k: Poly, shifts: List[Shifted], _d: int = 0) 
     return p.subst(m) if m else p
 
 
-def push_idx(tb: TermBuilder, p: Poly, shifts: List[Shifted]) -> Poly:
+def push_idx(tb: TermBuilder, p: Poly, shifts: List[Shifted], _d: int = 0) -> Poly:
     """`(whole-array expression)[k]` -> the expression of the elements; subscripts of a plain array are left as they are"""
     for _ in range(4):
         m: Dict[str, Poly] = {}
         for key in p.atoms():
             a = tb.atoms.get(key)
+            if a is not None and a.kind == "phi" and _d < 8:
+                # a subscripted whole-array expression that is one alternative of a case split (`m = 1 - next_done if last else (1 - dones)[t + 1]`)
+                new = [push_idx(tb, s, shifts, _d + 1) for s in a.sub]
+                if new != list(a.sub):
+                    m[key] = mkphi(tb, new, a.node)
+                continue
             if a is None or a.kind != "idx" or len(a.sub) != 2:
                 continue
             b = single_atom(tb, a.sub[0])
@@ -279,9 +285,7 @@ def model_recursion(cfg: CFG, tb: TermBuilder, fn: Fn, R: Recursion) -> Recursio
     if ta is None:
         raise AnalysisError(f"{label}: the time index of the GAE loop is re-assigned inside the loop")
     tkey = ta.key
-    it = L.ast.iter
-    if isinstance(it, ast.Call) and call_name(it) == "reversed" and it.args and isinstance(it.args[0], ast.Call) and call_name(it.args[0]) == "range" and len(it.args[0].args) == 1:
-        R.bound = tb.term(it.args[0].args[0], L)
+    R.bound = backward_bound(tb, L.ast.iter, L)
     raw = tb.term(rn.ast.value, rn)
     # ---- loop-carried locals read by the stored value
     names = sorted({a.name for a, _, _ in walk_atoms(tb, raw) if a.kind == "rec" and a.name})
@@ -335,6 +339,23 @@ def model_recursion(cfg: CFG, tb: TermBuilder, fn: Fn, R: Recursion) -> Recursio
         R.a_next = next((a.key for a, _, _ in walk_atoms(tb, T) if a.kind == "rec" and a.name == R.carry), None)
     R.term = T
     return R
+
+
+def backward_bound(tb: TermBuilder, it: ast.AST, at: Node) -> Optional[Poly]:
+    """N when the iteration visits N-1, N-2, ..., 0 in this order, whatever its spelling: reversed(range(N)), reversed(range(0, N[, 1])),
+    range(N - 1, -1, -1); None for every other iteration (forward, another stride, another first / last step)"""
+    if not isinstance(it, ast.Call) or it.keywords:
+        return None
+    if call_name(it) == "reversed" and len(it.args) == 1 and isinstance(it.args[0], ast.Call) and call_name(it.args[0]) == "range" and not it.args[0].keywords:
+        a = it.args[0].args
+        if len(a) == 1:
+            return tb.term(a[0], at)
+        if len(a) in (2, 3) and tb.term(a[0], at).const_value() == 0 and (len(a) == 2 or tb.term(a[2], at).const_value() == 1):
+            return tb.term(a[1], at)
+        return None
+    if call_name(it) == "range" and len(it.args) == 3 and tb.term(it.args[1], at).const_value() == -1 and tb.term(it.args[2], at).const_value() == -1:
+        return tb.term(it.args[0], at) + Poly.const(1)
+    return None
 
 
 def is_rollout_length(tb: TermBuilder, p: Poly) -> bool:
